@@ -23,3 +23,10 @@ pub mod des;
 pub mod idea;
 pub mod rc2;
 pub mod xtea;
+pub mod cast5;
+pub mod cast6;
+pub mod serpent;
+pub mod twofish;
+pub mod belt;
+pub mod gost89;
+pub mod kuznyechik;
